@@ -17,7 +17,7 @@ func init() {
 		Level: "fault_enumeration",
 		Rule: "each case prepares a bucket (1-3 writers, 10-120 rows, entries_per_node 2,3,4,4096, 1-4 unmerged versions) and picks one target statement: read-write or read-only open (merge-on-open), full scan, range scan, point lookup, count, autocommit INSERT/UPDATE/DELETE, multi-statement COMMIT, s3db_refresh, s3db_changes query, s3db_vacuum; and raced forms of open and refresh in which, between the subject's LIST and its first read of a version, another connection merges and commits, so that every listed version has been retired and is read from its second location (root/merged/). " +
 			"A failed write is, in half of the cases, simply tried again on the same connection and must then be complete in the bucket. Injected errors rotate through three forms: connection reset (no status), a 503 from the service, and a GET whose body ends half-way with io.ErrUnexpectedEOF. " +
-			"A fault-free reference run records the target's result and its R storage requests; then for EVERY request position p<=R (60 seeded positions when R>60) the pre-state is restored and the target re-runs with (a) one failing request, (b) requests failing persistently from p until cleared, and for 3 seeded positions (c) the request blocking until the connection's deadline (1-2 s ahead) expires. " +
+			"A fault-free reference run records the target's result and its R storage requests; then for EVERY request position p<=R (60 seeded positions when R>60) the pre-state is restored and the target re-runs with (a) one failing request, (b) requests failing persistently from p until cleared, (b') request p and from then on every GET and LIST failing while PUT and DELETE go through (a read outage), and for 3 seeded positions (c) the request blocking until the connection's deadline (1-2 s ahead) expires. " +
 			"Each run must end in an error or in exactly the reference result; a write reported successful must be visible to a fresh open once the fault is cleared; the worker process must stay alive and the statement must return (a statement that has not returned 30 s after its last storage request, or that issued more than 50x the reference request count, is a violation); afterwards the same connection (after s3db_refresh) and a new one must show all committed data and accept a write. " +
 			"non-trivial = R>=4 and at least one faulted run returned an error and one completed; distinct = hash of (target, bucket shape, R)",
 		Flavours: []string{"plain"},
@@ -347,8 +347,10 @@ func runC14(c *Case) {
 		name       string
 		action     string
 		persistent bool
+		onlyReads  bool
 	}
-	modes := []mode{{"error-once", "error", false}, {"error-persistent", "error", true}}
+	// read-outage: request p fails, and from then on every GET and LIST, while PUT and DELETE go through
+	modes := []mode{{"error-once", "error", false, false}, {"error-persistent", "error", true, false}, {"read-outage", "error", true, true}}
 	blockPos := map[int]bool{}
 	for _, i := range r.Perm(len(positions))[:min(3, len(positions))] {
 		blockPos[positions[i]] = true
@@ -357,7 +359,7 @@ func runC14(c *Case) {
 	for _, p := range positions {
 		ms := modes
 		if blockPos[p] {
-			ms = append(append([]mode{}, modes...), mode{"deadline", "block", r.Bool()})
+			ms = append(append([]mode{}, modes...), mode{"deadline", "block", r.Bool(), false})
 		}
 		for _, m := range ms {
 			if c.Res.Status == "violated" {
@@ -379,7 +381,7 @@ func runC14(c *Case) {
 				}
 			}
 			s.cl.ResetCounters()
-			s.cl.AddFault(fs3.Fault{AtReq: p, Action: m.action, Persistent: m.persistent})
+			s.cl.AddFault(fs3.Fault{AtReq: p, Action: m.action, Persistent: m.persistent, OnlyReads: m.onlyReads})
 			o := runTarget(s)
 			reqs, _ := s.cl.Counters()
 			s.cl.ClearFaults()
